@@ -28,6 +28,9 @@ pub enum Case {
     ReadWords { w: Wd, n_words: u8, seed: u64, schedule: Vec<Act>, reads: u8 },
     /// word_pos / set_word_pos over a seekable byte stream: ops are (0 = read, 1 = pos, 2+k = seek k)
     Seekable { w: Wd, n_words: u8, seed: u64, ops: Vec<u8>, bufreader: bool },
+    /// faults while reading (a word may be consumed half-way and the error reported), then an absolute
+    /// set_word_pos(k) and a read: the word at index k must come back
+    SeekAfterFault { w: Wd, n_words: u8, seed: u64, schedule: Vec<Act>, reads: u8, k: u8 },
     /// bit-level stream written through BufBitWriter<E, WordAdapter<W, faulty sink>>
     BitWrite { e: En, w: Wd, fields: Vec<(u64, u8)>, schedule: Vec<Act> },
     /// bit-level stream read through BufBitReader<E, WordAdapter<W, faulty source>>
@@ -40,7 +43,8 @@ pub const DEF: PropDef = PropDef {
 either transfers at most k bytes (k = 0..=requested: short transfers), or returns ErrorKind::Interrupted, or a hard error; after the schedule \
 it behaves normally. Exhaustive: every schedule of up to 4 actions over the alphabet {limit 0..=W, Interrupted, hard error} for word sizes up \
 to u32 on 2-word sequences (write side and read side); random schedules for all word sizes; seekable sources (Cursor, BufReader<Cursor>) with \
-read_word / word_pos / set_word_pos sequences; bit-level streams written and read through BufBitWriter/BufBitReader over the adapter, both \
+read_word / write_word / word_pos / set_word_pos sequences; an absolute set_word_pos(k) after a read error was reported must still \
+address word k; bit-level streams written and read through BufBitWriter/BufBitReader over the adapter, both \
 endiannesses, compared with the memory image. Oracle: without faults the sink holds exactly the concatenated native-endian word bytes; with \
 faults, whenever write_word / read_word / flush returns Ok every byte of that word was transferred exactly once and in order (sink == \
 concatenation of all Ok words; word read == word at that index); whenever it returns Err the bytes received so far are the Ok words followed by \
@@ -52,6 +56,7 @@ Non-trivial: the schedule contained a short transfer or an Interrupted that the 
     ],
     run,
     replay,
+    from_bytes: None,
 };
 
 #[derive(Default)]
@@ -64,6 +69,8 @@ struct Shared {
     met_interrupt: bool,
     met_fail: bool,
     armed: bool,
+    /// bytes accepted since the sink's flush was last called
+    unflushed: usize,
 }
 
 #[derive(Clone)]
@@ -103,16 +110,36 @@ impl Write for Faulty {
                     s.met_short = true;
                 }
                 s.bytes.extend_from_slice(&buf[..k]);
+                s.unflushed += k;
                 Ok(k)
             }
             None => {
                 s.bytes.extend_from_slice(buf);
+                s.unflushed += buf.len();
                 Ok(buf.len())
             }
         }
     }
     fn flush(&mut self) -> std::io::Result<()> {
+        self.0.borrow_mut().unflushed = 0;
         Ok(())
+    }
+}
+
+impl std::io::Seek for Faulty {
+    fn seek(&mut self, pos: std::io::SeekFrom) -> std::io::Result<u64> {
+        let mut s = self.0.borrow_mut();
+        let len = s.bytes.len() as i128;
+        let np: i128 = match pos {
+            std::io::SeekFrom::Start(p) => p as i128,
+            std::io::SeekFrom::Current(d) => s.pos as i128 + d as i128,
+            std::io::SeekFrom::End(d) => len + d as i128,
+        };
+        if np < 0 {
+            return Err(std::io::Error::new(ErrorKind::InvalidInput, "negative position"));
+        }
+        s.pos = (np as usize).min(s.bytes.len());
+        Ok(np as u64)
     }
 }
 
@@ -211,7 +238,11 @@ fn write_words<W: Wordy + From<u8> + dsi_bitstream::traits::Word>(n: usize, seed
             }
         }
     }
-    if WordWrite::flush(&mut ad).is_ok() && sink.0.borrow().bytes != data {
+    let fl = WordWrite::flush(&mut ad);
+    if fl.is_ok() && sink.0.borrow().unflushed != 0 {
+        fail!(format!("flush/{}/not_propagated", wname), "WordAdapter::flush returned Ok without flushing the byte sink");
+    }
+    if fl.is_ok() && sink.0.borrow().bytes != data {
         fail!(format!("flush/{}", wname), "after flush the sink differs from the concatenated word bytes");
     }
     label_faults(&mut o, &sink);
@@ -251,8 +282,67 @@ fn read_words<W: Wordy + From<u8> + dsi_bitstream::traits::Word + PartialEq + st
     Ok(o)
 }
 
-fn seekable<W: Wordy + From<u8> + dsi_bitstream::traits::Word + PartialEq + std::fmt::Debug, B: Read + Seek>(be: B, n: usize, data: &[u8], ops: &[u8], wname: &str) -> CheckResult {
-    let words: Vec<W> = crate::adapters::words_of::<W>(data);
+type WriteFn<W, B> = fn(&mut WordAdapter<W, B>, W) -> Result<(), String>;
+
+fn seek_after_fault<W: Wordy + From<u8> + dsi_bitstream::traits::Word + PartialEq + std::fmt::Debug>(n: usize, seed: u64, schedule: &[Act], reads: usize, k: usize, wname: &str) -> CheckResult {
+    let data = words_for::<W>(n, seed);
+    let words: Vec<W> = crate::adapters::words_of::<W>(&data);
+    let src = Faulty::new(schedule, data.clone());
+    let mut ad = WordAdapter::<W, _>::new(src.clone());
+    let mut o = Outcome::new();
+    let mut errored = false;
+    for i in 0..reads {
+        match ad.read_word() {
+            Ok(w) => {
+                if i >= n || w != words[i] {
+                    fail!(format!("read_word/{}/value", wname), "read_word #{} returned {:?}, the source holds {:?}", i, w, words.get(i));
+                }
+            }
+            Err(_) => {
+                errored = true;
+                break;
+            }
+        }
+    }
+    // no more faults; an absolute seek re-establishes the position whatever happened before
+    src.0.borrow_mut().armed = false;
+    let k = k % (n + 1);
+    if ad.set_word_pos(k as u64).is_err() {
+        fail!(format!("seek_after_fault/{}/set_word_pos", wname), "set_word_pos({}) failed on a {}-word source", k, n);
+    }
+    match ad.read_word() {
+        Ok(w) => {
+            if k >= n || w != words[k] {
+                label_faults(&mut o, &src);
+                fail!(
+                    format!("seek_after_fault/{}/value", wname),
+                    "after {} set_word_pos({}) then read_word returned {:?}, word {} of the source is {:?}; schedule {:?}",
+                    if errored { "a reported read error" } else { "successful reads" }, k, w, k, words.get(k), schedule
+                );
+            }
+        }
+        Err(_) => {
+            if k < n {
+                fail!(format!("seek_after_fault/{}/err", wname), "set_word_pos({}) then read_word failed although the source holds {} words", k, n);
+            }
+        }
+    }
+    if errored {
+        o.nt("seek_after_reported_error");
+    }
+    label_faults(&mut o, &src);
+    Ok(o)
+}
+
+fn seekable<W: Wordy + From<u8> + dsi_bitstream::traits::Word + PartialEq + std::fmt::Debug, B: Read + Seek>(
+    be: B,
+    n: usize,
+    data: &[u8],
+    ops: &[u8],
+    wname: &str,
+    mut write: Option<WriteFn<W, B>>,
+) -> CheckResult {
+    let mut words: Vec<W> = crate::adapters::words_of::<W>(data);
     let mut ad = WordAdapter::<W, _>::new(be);
     let mut cur = 0usize;
     let mut o = Outcome::new();
@@ -260,14 +350,14 @@ fn seekable<W: Wordy + From<u8> + dsi_bitstream::traits::Word + PartialEq + std:
         match *op {
             0 => match ad.read_word() {
                 Ok(w) => {
-                    if cur >= n || w != words[cur] {
+                    if cur >= words.len() || w != words[cur] {
                         fail!(format!("seek/{}/read", wname), "op #{}: read_word at word {} returned {:?}, expected {:?}", i, cur, w, words.get(cur));
                     }
                     cur += 1;
                 }
                 Err(_) => {
-                    if cur < n {
-                        fail!(format!("seek/{}/read_err", wname), "op #{}: read_word at word {} of {} failed", i, cur, n);
+                    if cur < words.len() {
+                        fail!(format!("seek/{}/read_err", wname), "op #{}: read_word at word {} of {} failed", i, cur, words.len());
                     }
                     return Ok(o);
                 }
@@ -276,6 +366,25 @@ fn seekable<W: Wordy + From<u8> + dsi_bitstream::traits::Word + PartialEq + std:
                 Ok(p) if p == cur as u64 => {}
                 o2 => fail!(format!("seek/{}/word_pos", wname), "op #{}: word_pos() = {:?}, {} words transferred", i, o2, cur),
             },
+            k if k >= 128 => {
+                // write_word through the same seekable stream (only for in-memory cursors that can write)
+                let Some(wr) = write.as_mut() else { continue };
+                let val = W::from(k);
+                match wr(&mut ad, val) {
+                    Ok(()) => {
+                        if cur < words.len() {
+                            words[cur] = val;
+                        } else if cur == words.len() {
+                            words.push(val);
+                        } else {
+                            continue;
+                        }
+                        cur += 1;
+                        o.nt("write_then_pos");
+                    }
+                    Err(e) => fail!(format!("seek/{}/write", wname), "op #{}: write_word at word {} failed: {}", i, cur, e),
+                }
+            }
             k => {
                 let k = (k as usize - 2) % (n + 1);
                 if ad.set_word_pos(k as u64).is_err() {
@@ -303,6 +412,7 @@ where
     let sink = Faulty::new(schedule, vec![]);
     let mut o = Outcome::new();
     let mut errored = false;
+    let mut flush_lost = 0usize;
     macro_rules! go {
         ($E:ty) => {{
             let mut bw = BufBitWriter::<$E, _>::new(WordAdapter::<W, _>::new(sink.clone()));
@@ -314,6 +424,9 @@ where
             }
             if !errored && BitWrite::flush(&mut bw).is_err() {
                 errored = true;
+            }
+            if !errored && sink.0.borrow().unflushed != 0 {
+                flush_lost = sink.0.borrow().unflushed;
             }
             let at_error = sink.0.borrow().bytes.clone();
             // no more faults while the writer is torn down (its Drop unwraps the flush result)
@@ -327,6 +440,9 @@ where
         En::LE => go!(LE),
     };
     label_faults(&mut o, &sink);
+    if flush_lost != 0 {
+        fail!(format!("bit_write/{}/flush_not_propagated", wname), "flush() returned Ok but the byte sink's flush was not called after its last {} bytes (a buffering sink would still hold them)", flush_lost);
+    }
     if errored {
         o.label("error_reported");
         // what reached the sink before the error must be whole-or-partial words of the image, in order
@@ -389,12 +505,14 @@ pub fn check_case(c: &Case, _env: &Env) -> CheckResult {
     match c {
         Case::WriteWords { w, n_words, seed, schedule } => for_w!(*w, W => write_words::<W>(*n_words as usize, *seed, schedule, &format!("w{}", w.bits()))),
         Case::ReadWords { w, n_words, seed, schedule, reads } => for_w!(*w, W => read_words::<W>(*n_words as usize, *seed, schedule, *reads as usize, &format!("w{}", w.bits()))),
+        Case::SeekAfterFault { w, n_words, seed, schedule, reads, k } => for_w!(*w, W => seek_after_fault::<W>(*n_words as usize, *seed, schedule, *reads as usize, *k as usize, &format!("w{}", w.bits()))),
         Case::Seekable { w, n_words, seed, ops, bufreader } => for_w!(*w, W => {
             let data = words_for::<W>(*n_words as usize, *seed);
             if *bufreader {
-                seekable::<W, _>(std::io::BufReader::with_capacity(7, Cursor::new(data.clone())), *n_words as usize, &data, ops, &format!("w{}", w.bits()))
+                seekable::<W, _>(std::io::BufReader::with_capacity(7, Cursor::new(data.clone())), *n_words as usize, &data, ops, &format!("w{}", w.bits()), None)
             } else {
-                seekable::<W, _>(Cursor::new(data.clone()), *n_words as usize, &data, ops, &format!("w{}", w.bits()))
+                let wf: WriteFn<W, Cursor<Vec<u8>>> = |ad, v| ad.write_word(v).map_err(|e| e.to_string());
+                seekable::<W, _>(Cursor::new(data.clone()), *n_words as usize, &data, ops, &format!("w{}", w.bits()), Some(wf))
             }
         }),
         Case::BitWrite { e, w, fields, schedule } => for_w!(*w, W => bit_write::<W>(*e, fields, schedule, &format!("w{}", w.bits()))),
@@ -445,25 +563,34 @@ fn run(ctx: &Ctx, env: &Env) -> Stats {
                         })
                         .collect();
                     part.check(&Case::WriteWords { w, n_words: 2, seed: 7 + ctx.seed, schedule: schedule.clone() }, &f);
-                    part.check(&Case::ReadWords { w, n_words: 2, seed: 7 + ctx.seed, schedule, reads: 3 }, &f);
+                    part.check(&Case::ReadWords { w, n_words: 2, seed: 7 + ctx.seed, schedule: schedule.clone(), reads: 3 }, &f);
+                    if len <= 3 {
+                        for k in 0..=3u8 {
+                            part.check(&Case::SeekAfterFault { w, n_words: 3, seed: 9 + ctx.seed, schedule: schedule.clone(), reads: 3, k }, &f);
+                        }
+                    }
                 }
             }
             part.finish()
         }));
     }
     jobs.push(Box::new(move |ctx: &Ctx| {
-        let mut part = Part::new(ctx, "seekable", "all op sequences of length <= 5 over {read, pos, seek 0..=3} on 3-word Cursor / BufReader sources, every word size", true);
+        let mut part = Part::new(ctx, "seekable", "all op sequences of length <= 5 over {read, write, pos, seek 0..=3} on 3-word Cursor / BufReader streams, every word size", true);
         let f = |c: &Case| check_case(c, env);
         for w in Wd::WRITER {
             for bufreader in [false, true] {
                 for len in 0..=5usize {
-                    for code in 0..6usize.pow(len as u32) {
+                    for code in 0..7usize.pow(len as u32) {
                         let mut x = code;
                         let ops: Vec<u8> = (0..len)
                             .map(|_| {
-                                let a = (x % 6) as u8;
-                                x /= 6;
-                                a
+                                let a = (x % 7) as u8;
+                                x /= 7;
+                                if a == 6 {
+                                    0xA7
+                                } else {
+                                    a
+                                }
                             })
                             .collect();
                         part.check(&Case::Seekable { w, n_words: 3, seed: 3, ops, bufreader }, &f);
@@ -473,7 +600,7 @@ fn run(ctx: &Ctx, env: &Env) -> Stats {
         }
         part.finish()
     }));
-    let n_rand = ctx.t(20_000u64, 600_000);
+    let n_rand = ctx.t(100_000u64, 2_000_000);
     for j in 0..8 {
         jobs.push(Box::new(move |ctx: &Ctx| {
             let mut part = Part::new(ctx, format!("random/{}", j), "proptest byte strings decoded into word-level and bit-level cases with fault schedules", false);
@@ -486,13 +613,14 @@ fn run(ctx: &Ctx, env: &Env) -> Stats {
 
 pub fn gen_case(s: &mut Src) -> Case {
     let w = s.pick(&Wd::WRITER);
-    match s.below(5) {
+    match s.below(6) {
+        5 => Case::SeekAfterFault { w, n_words: s.range(1, 6) as u8, seed: s.u16() as u64, schedule: gen_schedule(s, w.bytes(), true), reads: s.range(1, 7) as u8, k: s.below(7) as u8 },
         0 => Case::WriteWords { w, n_words: s.range(1, 6) as u8, seed: s.u16() as u64, schedule: gen_schedule(s, w.bytes(), true) },
         1 => Case::ReadWords { w, n_words: s.range(0, 6) as u8, seed: s.u16() as u64, schedule: gen_schedule(s, w.bytes(), true), reads: s.range(1, 8) as u8 },
         2 => {
             let n = s.range(1, 6);
             let k = s.range(1, 12);
-            Case::Seekable { w, n_words: n as u8, seed: s.u16() as u64, ops: (0..k).map(|_| s.below(n + 3) as u8).collect(), bufreader: s.bool() }
+            Case::Seekable { w, n_words: n as u8, seed: s.u16() as u64, ops: (0..k).map(|_| if s.below(5) == 0 { 0x80 | s.u8() } else { s.below(n + 3) as u8 }).collect(), bufreader: s.bool() }
         }
         3 => {
             let k = s.range(1, 12);
